@@ -2,6 +2,11 @@
 harness-set names defined in lib/kani_sets.py."""
 
 PROPS = {
+    'C02': {'units': ['U-VALVE'], 'level': 'proof',
+            'assumptions': ['UTF-8 transcoding abstract (utf8 axioms)', 'bzip2/crc32 bodies assumed', 'network exchange outcome uninterpreted (a2s_exchange)']},
+    'C11': {'units': ['U-VALVE'], 'level': 'proof', 'assumptions': ['ValveProtocol::new (socket creation) assumed']},
+    'C13': {'units': ['U-VALVE', 'U-VARINT', 'U-BUF'], 'level': 'proof', 'assumptions': ['element sizes bounded by 256 bytes (axiom_elem_bound_any)']},
+    'C01': {'units': ['U-BUF', 'U-UTIL', 'U-VARINT', 'U-VALVE'], 'level': 'proof', 'assumptions': []},
     'C17': {
         'units': ['U-BUF', 'U-VARINT', 'U-UTIL'],
         'kani': 'C17',
